@@ -344,6 +344,13 @@ Definition get_counted (w : nat) (l : list N) : option (list N * list N) :=
   | None => None
   end.
 
+(* pickletools decodes the text arguments of STRING (after unescaping), PERSID, GLOBAL and INST as ASCII, and runs
+   the latter three through the escape decoder too (read_stringnl(decode=True)): bytes >= 0x80 are rejected, and a backslash
+   in a name would be read as an escape.  The formal lexer therefore accepts only 7-bit text there, and no backslash in
+   the unquoted forms (found by validating this lexer against pickletools.genops, suite `ref`). *)
+Definition ascii7 (l : list N) : bool := forallb (fun b => b <? 128) l.
+Definition line_plain (l : list N) : bool := forallb (fun b => (b <? 128) && negb (b =? 92)) l.
+
 Definition read_arg (r : argreader) (l : list N) : option (arg * list N) :=
   match r with
   | no_arg => Some (A0, l)
@@ -369,7 +376,7 @@ Definition read_arg (r : argreader) (l : list N) : option (arg * list N) :=
       | Some (ln, rest) =>
           match unquote ln with
           | Some body => match unescape (S (length body)) body with
-                         | Some s => Some (AB s, rest)
+                         | Some s => if ascii7 s then Some (AB s, rest) else None
                          | None => None
                          end
           | None => None
@@ -377,11 +384,11 @@ Definition read_arg (r : argreader) (l : list N) : option (arg * list N) :=
       | None => None
       end
   | rd_stringnl_noescape =>
-      match read_line l with Some (ln, rest) => Some (AB ln, rest) | None => None end
+      match read_line l with Some (ln, rest) => if line_plain ln then Some (AB ln, rest) else None | None => None end
   | rd_stringnl_noescape_pair =>
       match read_line l with
       | Some (m, rest) => match read_line rest with
-                          | Some (a, rest') => Some (AP m a, rest')
+                          | Some (a, rest') => if line_plain m && line_plain a then Some (AP m a, rest') else None
                           | None => None
                           end
       | None => None
